@@ -199,7 +199,8 @@ def solve_ops(job):
             o["returned_policy"] = _canon_policy(problem, st.policy)
             obs.append(o)
         elif kind == "set_values":
-            solver.values = jnp.array(np.array([frac_to_float(x) for x in op[1]], dtype=np.float64))
+            # in the solver's own value dtype (float32 when single precision was requested)
+            solver.values = jnp.array(np.array([frac_to_float(x) for x in op[1]], dtype=np.asarray(solver.values).dtype))
             obs.append({"ok": True})
         elif kind == "set_gamma":
             # public attribute, assigned exactly the way the constructor builds it (so cached executables are reused)
